@@ -36,11 +36,22 @@ def build(sh, k):
     if t == 'list':
         return [build(e, k + i) for i, e in enumerate(sh[1])]
     if t == 'tuple':
-        return tuple(build(e, k + i) for i, e in enumerate(sh[1]))
+        items = [build(e, k + i) for i, e in enumerate(sh[1])]
+        if k % 3 == 0:
+            # the application put ONE list / dict / tuple object into several fields (a row used twice): sharing an
+            # object is not a cycle
+            first = {}
+            for i, e in enumerate(sh[1]):
+                if e[0] in ('list', 'tuple', 'dict'):
+                    if e in first:
+                        items[i] = items[first[e]]
+                    else:
+                        first[e] = i
+        return tuple(items)
     if t == 'dict':
         d = {}
         for i, (ks, vs) in enumerate(sh[1]):
-            key = ('k%d' % i) if ks[0] == 'str' else 10 + i
+            key = ('k%d' % i) if ks[0] == 'str' else (0.5 + i) if ks[0] == 'float' else 10 + i
             d[key] = build(vs, k + i)
         return d
     raise ValueError(sh)
@@ -96,7 +107,7 @@ def rand_shape(rng, depth):
         return ('list', tuple(rand_shape(rng, depth - 1) for _ in range(rng.choice([0, 1, 2, 3, 4]))))
     if r < 0.85:
         return ('tuple', tuple(rand_shape(rng, depth - 1) for _ in range(rng.choice([0, 1, 1, 2, 2, 3]))))
-    ks = rng.choice([('str',), ('int', 'i32')])
+    ks = rng.choice([('str',), ('int', 'i32'), ('float',)])
     return ('dict', tuple((ks, rand_shape(rng, depth - 1)) for _ in range(rng.choice([0, 1, 2, 3]))))
 
 
@@ -183,6 +194,14 @@ def run(tier, seed):
             sh = ('tuple', (elem,) * width)
             sg, rt, detail = infer_case(sh, 900 + j)
             infer_tr.append(({'mode': 'infer', 'ts': (), 'sigv': sg, 'parts': (), 'shape': sh, 'rt': rt}, detail, 900 + j))
+    # one container object in several fields of a struct; dictionaries keyed by floating-point numbers
+    row = ('list', (('int', 'i32'), ('int', 'i32')))
+    opts = ('dict', ((('str',), ('int', 'i32')),))
+    for sh in (('tuple', (row, row)), ('tuple', (row, ('str',), row)), ('tuple', (opts, opts)), ('list', (('tuple', (row, row)),)),
+               ('dict', ((('float',), ('str',)), (('float',), ('str',)))), ('list', (('dict', ((('float',), ('int', 'i32')),)),)),
+               ('tuple', (('dict', ((('float',), row),)), ('str',)))):
+        sg, rt, detail = infer_case(sh, 999)
+        infer_tr.append(({'mode': 'infer', 'ts': (), 'sigv': sg, 'parts': (), 'shape': sh, 'rt': rt}, detail, 999))
     cc = 'CONSTANTS\n MaxSig = 1\n Depth = 1\n'
     for label, batch, pred in (('split', split_tr, 'TraceSplit'), ('infer', infer_tr, 'TraceInfer')):
         traces = [[({'n': 'Init'}, st)] for st, _, _ in batch]
